@@ -263,8 +263,9 @@ Fixpoint run_cmp (tol : T) (st : lst) (ops : list (lop * T)) : option (lst * boo
     end
   end.
 
+Definition beqb (a b : bool) : bool := if a then b else negb b.
 Definition beqlist (a b : list bool) : bool :=
-  (length a =? length b) && forallb (fun p => Bool.eqb (fst p) (snd p)) (combine a b).
+  (length a =? length b) && forallb (fun p => beqb (fst p) (snd p)) (combine a b).
 
 (* [guards hold along the whole log; every written value agrees; final labels agree;
     final values agree] *)
